@@ -3,10 +3,13 @@ C05 for mTSP: the mask hides no feasible solution.  Every Spec-feasible solution
 (no pointless depot visits: it starts with a customer, never visits the depot twice in a row and ends
 with a customer) is a mask-confined run of the environment that ends finished — for every instance
 and every such solution, in particular for the ones that use all `m` agents (`#tours = m`, the
-boundary of the agent constraint).  Hence the best reward reachable through the mask is the optimum.
+boundary of the agent constraint).  Every feasible solution has a canonical form with the same tours
+(`canonize_spec`), so the best reward reachable through the mask is the optimum, for both cost types
+(`opt_reachable`, stated as ∃ / ∀).
 -/
 import Rl4co.Proofs.Mtsp
 import Rl4co.Props.C01.Mtsp
+import Rl4co.Props.C03.Mtsp
 
 namespace Rl4co.Mtsp
 open Rl4co.Spec.Mtsp
@@ -167,5 +170,228 @@ theorem run_of_feasible (i : Inst) {as : List Nat} (hf : Feasible i as) (hc : Ca
 /-- Non-vacuity: a canonical feasible solution that uses all agents (3 customers, 2 agents, 2 tours). -/
 example : Feasible ⟨3, 2, fun _ _ => 1⟩ [2, 0, 3, 1] ∧ Canonical [2, 0, 3, 1] :=
   ⟨(feasible_iff _ _).mp (by decide), by unfold Canonical; decide⟩
+
+/-! ### every feasible solution has a canonical form with the same tours -/
+
+/-- the tours joined by single depot visits -/
+def join0 : List (List Nat) → List Nat
+  | [] => []
+  | [t] => t
+  | t :: t' :: ts => t ++ 0 :: join0 (t' :: ts)
+
+/-- zero-free -/
+def ZF (t : List Nat) : Prop := ∀ x ∈ t, x ≠ 0
+
+theorem routes_zf (t : List Nat) (h : ZF t) : routes t = [t] := by
+  induction t with
+  | nil => rfl
+  | cons x t ih =>
+    have hx : x ≠ 0 := h x (by simp)
+    simp [routes, hx, ih (fun y hy => h y (by simp [hy]))]
+
+theorem routes_zf_append (t rest : List Nat) (h : ZF t) : routes (t ++ 0 :: rest) = t :: routes rest := by
+  induction t with
+  | nil => simp [routes]
+  | cons x t ih =>
+    have hx : x ≠ 0 := h x (by simp)
+    simp [routes, hx, ih (fun y hy => h y (by simp [hy]))]
+
+theorem routes_join0 (ts : List (List Nat)) (h : ∀ t ∈ ts, ZF t) (hne : ts ≠ []) : routes (join0 ts) = ts := by
+  induction ts with
+  | nil => exact absurd rfl hne
+  | cons t ts ih =>
+    cases ts with
+    | nil => simp [join0, routes_zf t (h t (by simp))]
+    | cons t' ts =>
+      simp only [join0]
+      rw [routes_zf_append t _ (h t (by simp)), ih (fun u hu => h u (by simp [hu])) (by simp)]
+
+theorem canon_zf_append (t l : List Nat) (h : ZF t) (hne : t ≠ []) (p : Nat) :
+    ∃ q, q ≠ 0 ∧ canon p (t ++ l) = canon q l := by
+  induction t generalizing p with
+  | nil => exact absurd rfl hne
+  | cons x t ih =>
+    have hx : x ≠ 0 := h x (by simp)
+    cases t with
+    | nil => exact ⟨x, hx, by simp [canon, hx]⟩
+    | cons y t =>
+      obtain ⟨q, hq, e⟩ := ih (fun z hz => h z (by simp [hz])) (by simp) x
+      exact ⟨q, hq, by simp only [List.cons_append, canon, hx, ne_eq, not_false_eq_true, decide_true, Bool.true_or, Bool.true_and] at e ⊢; exact e⟩
+
+theorem canon_join0 (ts : List (List Nat)) (h : ∀ t ∈ ts, ZF t ∧ t ≠ []) (hne : ts ≠ []) (p : Nat) :
+    canon p (join0 ts) = true := by
+  induction ts generalizing p with
+  | nil => exact absurd rfl hne
+  | cons t ts ih =>
+    cases ts with
+    | nil =>
+      obtain ⟨q, hq, e⟩ := canon_zf_append t [] (h t (by simp)).1 (h t (by simp)).2 p
+      simp only [List.append_nil] at e
+      simp [join0, e, canon, hq]
+    | cons t' ts =>
+      obtain ⟨q, hq, e⟩ := canon_zf_append t (0 :: join0 (t' :: ts)) (h t (by simp)).1 (h t (by simp)).2 p
+      simp only [join0, e, canon, hq, ne_eq, not_false_eq_true, decide_true, Bool.or_true, Bool.true_and]
+      exact ih (fun u hu => h u (by simp [hu])) (by simp) 0
+
+theorem count_join0 (ts : List (List Nat)) (j : Nat) (hj : j ≠ 0) :
+    (join0 ts).count j = ((ts.map (List.count j)).sum) := by
+  induction ts with
+  | nil => rfl
+  | cons t ts ih =>
+    cases ts with
+    | nil => simp [join0]
+    | cons t' ts =>
+      have h0 : (0 == j) = false := by simp; omega
+      simp only [join0, List.count_append, List.count_cons, h0, ih, List.map_cons, List.sum_cons]
+      simp
+
+theorem mem_join0 (ts : List (List Nat)) (x : Nat) (hx : x ∈ join0 ts) : x = 0 ∨ ∃ t ∈ ts, x ∈ t := by
+  induction ts with
+  | nil => simp [join0] at hx
+  | cons t ts ih =>
+    cases ts with
+    | nil => exact Or.inr ⟨t, by simp, by simpa [join0] using hx⟩
+    | cons t' ts =>
+      simp only [join0, List.mem_append, List.mem_cons] at hx
+      rcases hx with hx | hx | hx
+      · exact Or.inr ⟨t, by simp, hx⟩
+      · exact Or.inl hx
+      · rcases ih hx with h | ⟨u, hu, hxu⟩
+        · exact Or.inl h
+        · exact Or.inr ⟨u, by simp [List.mem_cons] at hu ⊢; exact Or.inr hu, hxu⟩
+
+theorem routes_mem (as : List Nat) : ∀ r ∈ routes as, ZF r ∧ ∀ x ∈ r, x ∈ as := by
+  induction as with
+  | nil => intro r hr; simp [routes] at hr; subst hr; exact ⟨fun _ h => by simp at h, fun _ h => by simp at h⟩
+  | cons a as ih =>
+    intro r hr
+    by_cases h0 : a = 0
+    · subst h0
+      simp only [routes, if_true, List.mem_cons] at hr
+      rcases hr with hr | hr
+      · subst hr; exact ⟨fun _ h => by simp at h, fun _ h => by simp at h⟩
+      · obtain ⟨h1, h2⟩ := ih r hr
+        exact ⟨h1, fun x hx => by simp [h2 x hx]⟩
+    · obtain ⟨r1, rs, h1⟩ := routes_cons_exists as
+      simp only [routes, h0, if_false, h1, List.mem_cons] at hr
+      rcases hr with hr | hr
+      · subst hr
+        obtain ⟨z1, z2⟩ := ih r1 (by simp [h1])
+        refine ⟨?_, ?_⟩
+        · intro x hx; rcases List.mem_cons.mp hx with h | h
+          · subst h; exact h0
+          · exact z1 x h
+        · intro x hx; rcases List.mem_cons.mp hx with h | h
+          · simp [h]
+          · simp [z2 x h]
+      · obtain ⟨z1, z2⟩ := ih r (by simp [h1, hr])
+        exact ⟨z1, fun x hx => by simp [z2 x hx]⟩
+
+theorem count_routes (as : List Nat) (j : Nat) (hj : j ≠ 0) :
+    as.count j = (((routes as).map (List.count j)).sum) := by
+  induction as with
+  | nil => simp [routes]
+  | cons a as ih =>
+    by_cases h0 : a = 0
+    · subst h0
+      have : (0 == j) = false := by simp; omega
+      simp [routes, List.count_cons, this, ih]
+    · obtain ⟨r1, rs, h1⟩ := routes_cons_exists as
+      rw [h1] at ih
+      simp only [routes, h0, if_false, h1, List.map_cons, List.sum_cons, List.count_cons] at ih ⊢
+      omega
+
+theorem sum_count_tours (l : List (List Nat)) (j : Nat) :
+    (((l.filter (fun r => !r.isEmpty)).map (List.count j)).sum) = ((l.map (List.count j)).sum) := by
+  induction l with
+  | nil => rfl
+  | cons r l ih =>
+    cases r with
+    | nil => simp [ih]
+    | cons x r => simp [ih]
+
+theorem maxList_tours (D : Nat → Nat → Int) (l : List (List Nat)) :
+    maxList ((l.filter (fun r => !r.isEmpty)).map (routeLen D)) = maxList (l.map (routeLen D)) := by
+  induction l with
+  | nil => rfl
+  | cons r l ih =>
+    cases r with
+    | nil =>
+      have := maxList_nonneg (l.map (routeLen D))
+      simp only [List.filter_cons, List.isEmpty_nil, Bool.not_true, Bool.false_eq_true, if_false, ih,
+        List.map_cons, maxList, routeLen, if_true]
+      omega
+    | cons x r => simp [maxList, ih]
+
+theorem sum_tours (D : Nat → Nat → Int) (l : List (List Nat)) :
+    (((l.filter (fun r => !r.isEmpty)).map (routeLen D)).sum) = ((l.map (routeLen D)).sum) := by
+  induction l with
+  | nil => rfl
+  | cons r l ih =>
+    cases r with
+    | nil => simp [ih, routeLen]
+    | cons x r => simp [ih]
+
+/-- the canonical form of a solution: its (non-empty) tours joined by single depot visits -/
+def canonize (as : List Nat) : List Nat := join0 (tours as)
+
+/-- A feasible solution and its canonical form have the same tours, hence the same objectives; the
+canonical form is feasible and canonical. -/
+theorem canonize_spec (i : Inst) (hn : 1 ≤ i.n) {sol : List Nat} (hf : Feasible i sol) :
+    Feasible i (canonize sol) ∧ Canonical (canonize sol) ∧
+    objMinmax i (canonize sol) = objMinmax i sol ∧ objSum i (canonize sol) = objSum i sol := by
+  have hzf : ∀ t ∈ tours sol, ZF t ∧ t ≠ [] := by
+    intro t ht
+    simp only [tours, List.mem_filter, Bool.not_eq_true', List.isEmpty_eq_false_iff] at ht
+    exact ⟨(routes_mem sol t ht.1).1, ht.2⟩
+  have hcount : ∀ j, j ≠ 0 → (canonize sol).count j = sol.count j := by
+    intro j hj
+    rw [canonize, count_join0 _ j hj, tours, sum_count_tours, ← count_routes sol j hj]
+  have hne : tours sol ≠ [] := by
+    intro h
+    have := hcount 1 (by omega)
+    rw [canonize, h] at this
+    have h1 := hf.once 1 (by omega) hn
+    simp [join0] at this; omega
+  have hroutes : routes (canonize sol) = tours sol := routes_join0 _ (fun t ht => (hzf t ht).1) hne
+  have htours : tours (canonize sol) = tours sol := by
+    rw [tours, hroutes]
+    apply List.filter_eq_self.mpr
+    intro t ht
+    simp [(hzf t ht).2]
+  refine ⟨⟨?_, ?_, ?_⟩, canon_join0 _ hzf hne 0, ?_, ?_⟩
+  · intro x hx
+    rcases mem_join0 _ x hx with h | ⟨t, ht, hxt⟩
+    · omega
+    · simp only [tours, List.mem_filter] at ht
+      exact hf.range x ((routes_mem sol t ht.1).2 x hxt)
+  · intro j h1 h2
+    rw [hcount j (by omega)]; exact hf.once j h1 h2
+  · rw [htours]; exact hf.agents
+  · simp only [objMinmax, hroutes, tours, maxList_tours]
+  · simp only [objSum, routesLen, hroutes, tours, sum_tours]
+
+/-- **C05 (mTSP), the optimum is reachable — both cost types.**  (∃) every feasible solution is matched
+by a mask-confined finished episode with exactly its objective as (negated) reward, for `minmax` and for
+`sum`; (∀) every mask-confined finished episode is a feasible solution whose objectives are its rewards.
+So the best reward reachable through the mask equals the optimum over all feasible solutions. -/
+theorem opt_reachable (i : Inst) (hwf : WFD i) (hn : 1 ≤ i.n) (hm : 1 ≤ i.m) :
+    (∀ sol, Feasible i sol → ∃ as s, RunND env i (env.reset i) as s ∧ env.done i s = true ∧
+        rewardMinmax s = - objMinmax i sol ∧ rewardSum i as = - objSum i sol) ∧
+    (∀ as s, Run env i (env.reset i) as s → env.done i s = true →
+        Feasible i as ∧ rewardMinmax s = - objMinmax i as ∧ rewardSum i as = - objSum i as) := by
+  constructor
+  · intro sol hf
+    obtain ⟨hfc, hcan, e1, e2⟩ := canonize_spec i hn hf
+    obtain ⟨s, hrun, hd⟩ := run_of_feasible i hfc hcan
+    refine ⟨canonize sol, s, hrun, hd, ?_, ?_⟩
+    · rw [reward_minmax_eq_objective i hwf hm hrun.run hd, e1]
+    · rw [reward_sum_eq_objective i hwf.2, e2]
+  · intro as s hrun hd
+    exact ⟨feasible_of_run i hm hrun hd, reward_minmax_eq_objective i hwf hm hrun hd,
+      reward_sum_eq_objective i hwf.2 as⟩
+
+/-- Non-vacuity: a feasible solution with pointless depot visits and its canonical form. -/
+example : canonize [0, 2, 0, 0, 3, 1, 0] = [2, 0, 3, 1] := by decide
 
 end Rl4co.Mtsp
